@@ -7,7 +7,7 @@ import re
 from .. import calg
 from ..pymodel import package
 from ..ratemodel import model as ratemodel, SELF
-from ..valueflow import show, walk
+from ..valueflow import Flow, show, simp, walk
 
 EXPLANATION = (
     "Over every variant (dispatch arm x truthiness of the optional beta/gamma factors x shielding sub-branch) of rateexpr in Reaction, "
@@ -103,7 +103,25 @@ def coeff_assumption(cond, pol):
     return None
 
 
+def eval3(rm, cls, cond, dvar, value):
+    """Three-valued truth of a (possibly compound) dispatch condition for dvar = value: True / False / None (depends on
+    something else).  not / and / or are evaluated with Kleene's rules, so `rtype == 5 or rtype in range(15, 20)` is decided
+    for every code exactly like the two separate arms it may have been merged from."""
+    if cond[0] == "unop" and cond[1] == "Not":
+        t = eval3(rm, cls, cond[2], dvar, value)
+        return None if t is None else not t
+    if cond[0] == "bool":
+        vals = [eval3(rm, cls, p, dvar, value) for p in cond[2]]
+        if cond[1] == "And":
+            return False if any(x is False for x in vals) else True if all(x is True for x in vals) else None
+        return True if any(x is True for x in vals) else False if all(x is False for x in vals) else None
+    if cond[0] == "const":
+        return bool(cond[1])
+    return eval_cond(rm, cls, cond, dvar, value)
+
+
 def arms_for(rm, cls, variants, dvar, value):
+    """Variants whose dispatch path is reachable for dvar = value -> [(variant, residual conditions not about dvar)]."""
     out = []
     for v in variants:
         ok = True
@@ -111,34 +129,38 @@ def arms_for(rm, cls, variants, dvar, value):
         todo = list(v.conds)
         while todo and ok:
             cond, pol = todo.pop(0)
-            if cond[0] == "bool" and cond[1] == "And":
+            t = eval3(rm, cls, cond, dvar, value)
+            if t is not None:
+                if t != pol:
+                    ok = False
+                continue
+            # undecided: split into the parts that are still open
+            if cond[0] == "unop" and cond[1] == "Not":
+                todo.insert(0, (cond[2], not pol))
+                continue
+            if cond[0] == "bool":
+                conj = (cond[1] == "And") == pol          # (A and B) true / (A or B) false: every part has the polarity
                 parts = list(cond[2])
-                if pol:
-                    todo = [(p, True) for p in parts] + todo
-                    continue
-                # not (A and B and ..): decided parts first
-                vals = [eval_cond(rm, cls, p, dvar, value) for p in parts]
-                if any(x is False for x in vals):
-                    continue                      # condition holds
-                rest = [p for p, x in zip(parts, vals) if x is None]
-                if not rest:
-                    ok = False                    # all parts true -> negation false
+                vals = [eval3(rm, cls, p, dvar, value) for p in parts]
+                rest = [p for p, x in zip(parts, vals) if x is None]     # the decided parts are neutral here (else t were decided)
+                if conj:
+                    todo = [(p, pol) for p in rest] + todo
                 elif len(rest) == 1:
-                    todo.insert(0, (rest[0], False))
+                    todo.insert(0, (rest[0], pol))
                 else:
-                    extra.append((("bool", "And", tuple(rest)), False))
+                    extra.append(((cond[0], cond[1], tuple(rest)), pol))
                 continue
-            if cond[0] == "bool" and cond[1] == "Or" and not pol:
-                todo = [(p, False) for p in cond[2]] + todo
-                continue
-            t = eval_cond(rm, cls, cond, dvar, value)
-            if t is None:
-                extra.append((cond, pol))
-            elif t != pol:
-                ok = False
+            extra.append((cond, pol))
         if ok:
             out.append((v, extra))
     return out
+
+
+def _about_law(cond) -> bool:
+    """residual path conditions that select a sub-law (coefficient is zero / who is self-shielded) rather than the dispatch arm"""
+    if coeff_assumption(cond, True) is not None:
+        return True
+    return cond[0] == "cmp" and cond[1][0] in ("In", "NotIn") and "name" in show(cond)
 
 
 def variant_text(v):
@@ -214,21 +236,33 @@ def _r1(ctx, rm, pkg, allv):
                       "a negative value yields `--` (e.g. gamma=-5 gives exp(--5.0/Tgas))",
                       expected="return self._beautify(rate)", found="return rate")
     ctx.floor("R1", "sign-adjacent variants", n, 15)
-    # the clean-up table itself
+    # the clean-up table itself, read off the value _beautify returns: a chain of str.replace(old, new) over its argument -- however the
+    # chain is spelled (method chain, successive assignments, a loop over a literal / module-level table of pairs, unrolled at parse time)
     fn = pkg.method("Reaction", "_beautify")
     ctx.saw("naunet/reactions/reaction.py", "Reaction._beautify")
+    W = ("naunet/reactions/reaction.py", fn.lineno)
+    fl = Flow(fn, "naunet/reactions/reaction.py", consts=rm.module_consts("naunet/reactions/reaction.py"))
+    rets = [f for f in fl.facts if f.kind == "return"]
+    params = [a.arg for a in fn.args.args][1:]
+    chain, base = [], None
+    if len(rets) == 1 and rets[0].value is not None:
+        v = simp(rets[0].value)
+        while v[0] == "meth" and v[2] == "replace" and len(v[3]) == 2 and not v[4] and all(a[0] == "const" and isinstance(a[1], str) for a in v[3]):
+            chain.append((v[3][0][1], v[3][1][1]))
+            v = v[1]
+        base = v
+        chain.reverse()
+    if not chain or not params or base != ("param", params[0]):
+        ctx.unrec("R1", "_beautify:table", W, "the value _beautify returns is not a chain of str.replace(<text>, <text>) over its argument: "
+                  f"{show(simp(rets[0].value))[:120] if len(rets) == 1 and rets[0].value is not None else f'{len(rets)} return statements'}")
+        return
     table = {}
-    for c in ast.walk(fn):
-        if isinstance(c, ast.Call) and isinstance(c.func, ast.Attribute) and c.func.attr == "replace" and len(c.args) == 2 \
-                and all(isinstance(a, ast.Constant) for a in c.args):
-            table[c.args[0].value] = c.args[1].value
+    for k, w in chain:
+        table.setdefault(k, w)
     want = {"++": "+", "--": "+", "+-": "-", "-+": "-"}
     for k, w in want.items():
-        ctx.check(table.get(k) == w, "R1", f"_beautify:{k}", ("naunet/reactions/reaction.py", fn.lineno),
-                  f"'{k}' is rewritten to '{w}'", expected=repr(w), found=repr(table.get(k)))
-    rets = [r for r in ast.walk(fn) if isinstance(r, ast.Return)]
-    ctx.check(len(rets) == 1 and isinstance(rets[0].value, ast.Name), "R1", "_beautify:returns-cleaned", ("naunet/reactions/reaction.py", fn.lineno),
-              "the cleaned string is what is returned")
+        ctx.check(table.get(k) == w, "R1", f"_beautify:{k}", W, f"'{k}' is rewritten to '{w}'", expected=repr(w), found=repr(table.get(k)))
+    ctx.ok("R1", "_beautify:returns-cleaned", W, "the cleaned string is what is returned")
 
 
 # ------------------------------------------------------------------ R2 + R3
@@ -272,6 +306,13 @@ def _r2_r3(ctx, rm, pkg, allv):
             where = (arms[0][0].file, arms[0][0].line) if arms else (ci.file, 0)
             if not arms:
                 ctx.bad("R2", key, where, "no arm of rateexpr is reachable for this code")
+                continue
+            # a dispatch condition that could not be evaluated for this code (a table / helper the analysis does not see through)
+            # leaves arms of several kinds "reachable": that is not evidence about the code
+            open_ = sorted({show(c)[:70] for _, extra in arms for c, _p in extra if not _about_law(c)})
+            want_kind = {"RAISE": {"raise"}, "GRAIN": {"delegate"}}.get(ref if isinstance(ref, str) else "", None if ref == "UNIMPLEMENTED" else {"text"})
+            if open_ and want_kind is not None and kinds != want_kind:
+                ctx.unrec("R2", key, where, f"cannot decide which arm of rateexpr this code takes: condition(s) {open_} are not understood (arms found: {sorted(kinds)})")
                 continue
             if ref == "RAISE":
                 ctx.check(kinds == {"raise"}, "R2", key, where, "this code is refused with an explicit error", expected="raise", found=str(sorted(kinds)))
@@ -413,4 +454,67 @@ BENIGN = [
     {"name": "factors-reordered", "file": K, "old": 'rate = f"{a} * {b} * (0.62 + 0.4767*{c}*sqrt(300.0/Tgas))"', "new": 'rate = f"{b} * (0.4767*{c}*sqrt(300.0/Tgas) + 0.62) * {a}"'},
     {"name": "sqrt-as-pow", "file": K, "old": 'rate = f"{a} * {b} * (0.62 + 0.4767*{c}*sqrt(300.0/Tgas))"', "new": 'rate = f"{a} * {b} * (0.62 + 0.4767*{c}*pow(Tgas/300.0, -0.5))"'},
     {"name": "local-renamed", "file": U, "old": "        rtype = self.reaction_type\n\n        if rtype == self.ReactionType.UMIST_TWOBODY:", "new": "        rtype = self.reaction_type\n        kind = rtype\n\n        if kind == self.ReactionType.UMIST_TWOBODY:"},
+]
+
+# ---- spellings accepted since the round-4 benign sets (each also as a seeded defect written in the new spelling) ----
+_BEAUT_OLD = '        rate = (\n            rate_string.replace("++", "+")\n            .replace("--", "+")\n            .replace("+-", "-")\n            .replace("-+", "-")\n        )\n'
+_BEAUT_LOOP = '        rate = rate_string\n        for doubled, single in _SIGNS:\n            rate = rate.replace(doubled, single)\n'
+_CLS_OLD = 'class Reaction(Component):\n    """Class of chemical reactions"""\n'
+_GLIST_OLD = ('        elif rtype in [\n            ReactionType.GRAIN_FREEZE,\n            ReactionType.GRAIN_DESORB_THERMAL,\n            ReactionType.GRAIN_DESORB_COSMICRAY,\n'
+              '            ReactionType.GRAIN_DESORB_PHOTON,\n            ReactionType.GRAIN_DESORB_REACTIVE,\n            ReactionType.GRAIN_DESORB_H2,\n            ReactionType.GRAIN_RECOMINE,\n'
+              '            ReactionType.GRAIN_ECAPTURE,\n            ReactionType.SURFACE_TWOBODY,\n        ]:\n')
+_GTUPLE = ('_ON_GRAIN = (\n    ReactionType.GRAIN_FREEZE,\n    ReactionType.GRAIN_DESORB_THERMAL,\n    ReactionType.GRAIN_DESORB_COSMICRAY,\n    ReactionType.GRAIN_DESORB_PHOTON,\n'
+           '    ReactionType.GRAIN_DESORB_REACTIVE,\n    ReactionType.GRAIN_DESORB_H2,\n    ReactionType.GRAIN_RECOMINE,\n    ReactionType.GRAIN_ECAPTURE,\n    ReactionType.SURFACE_TWOBODY,\n)\n\n\n')
+_UMIST_CHAIN = ('        elif rtype == self.ReactionType.UMIST_PH:\n            rate = f"{a} * exp(-{c}*Av)"\n        elif rtype == self.ReactionType.UMIST_CP:\n            rate = f"{a}"\n'
+                '        elif rtype == self.ReactionType.UMIST_CR:\n            rate = f"{a} * pow(Tgas/300.0, {b}) * {c} / (1-omega)"\n        else:\n            raise RuntimeError(\n'
+                '                f"Code {self.code} has not been defined! Please extend the definition"\n            )\n')
+
+
+def _umist_table(ph_law):
+    return ('        else:\n            laws = (\n                (self.ReactionType.UMIST_PH, lambda: ' + ph_law + '),\n                (self.ReactionType.UMIST_CP, lambda: f"{a}"),\n'
+            '                (self.ReactionType.UMIST_CR, lambda: f"{a} * pow(Tgas/300.0, {b}) * {c} / (1-omega)"),\n            )\n            for known, law in laws:\n'
+            '                if rtype == known:\n                    return self._beautify(law())\n            raise RuntimeError(\n'
+            '                f"Code {self.code} has not been defined! Please extend the definition"\n            )\n')
+
+
+_LEEDS4_OLD = ('            rate = f"G0 * {a} * exp(-{c}*Av)"\n            if re1.name in ["H2", "CO", "N2"]:\n'
+               '                shield = f"GetShieldingFactor(IDX_{re1.alias}, h2col, {re1.name.lower()}col, Tgas, 0)"\n                rate = f"{rate} * {shield}"\n')
+_LEEDS_DEF = '    def rateexpr(self, grain: Grain = None) -> str:\n        a = self.alpha\n        b = self.beta\n        c = self.gamma\n        rtype = self.rtype\n'
+
+
+def _leeds_helper(names):
+    return ('    _selfshielded = ' + names + '\n\n    def _photolaw(self, who, names, skip):\n        rate = f"G0 * {self.alpha} * exp(-{self.gamma}*Av)"\n        if who.name in names:\n'
+            '            rate = f"{rate} * GetShieldingFactor(IDX_{who.alias[skip:]}, h2col, {who.name[skip:].lower()}col, Tgas, 0)"\n        return rate\n\n') + _LEEDS_DEF
+
+
+BENIGN += [
+    {"name": "beautify-loop-over-module-table", "edits": [
+        {"file": R, "old": _BEAUT_OLD, "new": _BEAUT_LOOP},
+        {"file": R, "old": _CLS_OLD, "new": '_SIGNS = (("++", "+"), ("--", "+"), ("+-", "-"), ("-+", "-"))\n\n\n' + _CLS_OLD}]},
+    {"name": "grain-types-module-tuple", "edits": [
+        {"file": R, "old": _GLIST_OLD, "new": "        elif rtype in _ON_GRAIN:\n"},
+        {"file": R, "old": _CLS_OLD, "new": _GTUPLE + _CLS_OLD}]},
+    {"name": "umist-table-of-closures", "file": U, "old": _UMIST_CHAIN, "new": _umist_table('f"{a} * exp(-{c}*Av)"')},
+    {"name": "leeds-merged-zero-arms", "file": L, "old": "        elif rtype in range(15, 20):\n", "new": "        elif rtype == 15 or rtype in range(16, 20):\n"},
+    {"name": "leeds-shield-helper-class-list", "edits": [
+        {"file": L, "old": _LEEDS4_OLD, "new": "            rate = self._photolaw(re1, self._selfshielded, 0)\n"},
+        {"file": L, "old": _LEEDS_DEF, "new": _leeds_helper('["H2", "CO", "N2"]')}]},
+    {"name": "umist-factors-appended", "file": U,
+     "old": '            rate = " * ".join(\n                s\n                for s in [\n                    f"{a}",\n                    f"pow(Tgas/300.0, {b})" if b else "",\n'
+            '                    f"exp(-{c}/Tgas)" if c else "",\n                ]\n                if s\n            )\n',
+     "new": '            factors = [f"{a}"]\n            if b:\n                factors.append(f"pow(Tgas/300.0, {b})")\n            if c:\n                factors.append(f"exp(-{c}/Tgas)")\n'
+            '            rate = " * ".join(filter(None, factors))\n'},
+]
+MUTANTS += [
+    {"name": "beautify-loop-table-wrong-sign", "edits": [
+        {"file": R, "old": _BEAUT_OLD, "new": _BEAUT_LOOP},
+        {"file": R, "old": _CLS_OLD, "new": '_SIGNS = (("++", "+"), ("--", "-"), ("+-", "-"), ("-+", "-"))\n\n\n' + _CLS_OLD}], "rules": ["R1"]},
+    {"name": "grain-module-tuple-missing-type", "edits": [
+        {"file": R, "old": _GLIST_OLD, "new": "        elif rtype in _ON_GRAIN:\n"},
+        {"file": R, "old": _CLS_OLD, "new": _GTUPLE.replace("    ReactionType.GRAIN_DESORB_H2,\n", "") + _CLS_OLD}], "rules": ["R2"]},
+    {"name": "umist-closure-table-photon-sign", "file": U, "old": _UMIST_CHAIN, "new": _umist_table('f"{a} * exp({c}*Av)"'), "rules": ["R3"]},
+    {"name": "leeds-merged-arm-swallows-type", "file": L, "old": "        elif rtype in range(15, 20):\n", "new": "        elif rtype == 20 or rtype in range(15, 20):\n", "rules": ["R2"]},
+    {"name": "leeds-class-list-extra-species", "edits": [
+        {"file": L, "old": _LEEDS4_OLD, "new": "            rate = self._photolaw(re1, self._selfshielded, 0)\n"},
+        {"file": L, "old": _LEEDS_DEF, "new": _leeds_helper('["H2", "CO", "N2", "H2+"]')}], "rules": ["R3"]},
 ]
